@@ -288,7 +288,7 @@ class C12(Prop):
     title = "Template rendering follows the documented grammar; bound values stay data"
     fixed_prefix = 1
     quick_budget = 1500
-    thorough_budget = 40000
+    thorough_budget = 30000
     quick_deadline_s = 100
     thorough_deadline_s = 800
     all_branches = ["cond:then", "cond:else", "cond:noelse", "loop:items", "loop:empty", "loop:notlist", "loop:dict",
@@ -432,7 +432,24 @@ class C12(Prop):
                         cases.append(self.case([("t0", "<{{a}}|{{b}}>")], dict(ctx),
                                                [("render", c, False), ("render", c, True), ("render", "x" + c + "y" + c, False)],
                                                "single construct"))
-        return [{"name": "every single construct x binding state x strictness", "cases": cases}]
+        # pass-order probes: hostile values that the pinned pass order does NOT re-interpret (the pass that would
+        # expand them has already run), and interleaved block tags whose outcome depends on which block pass runs first
+        probes = []
+        hv = ["{{#if b}}x{{/if}}", "{{#each xs}}q{{/each}}", "{{>t0}}", "{{#if b}}x{{#else}}y{{/if}}"]
+        for v in hv:
+            for tmpl in ["{{a}}", "{{?a}}", "{{a|lower}}", "{{a|dflt}}", "{{#each ys}}{{item}}{{/each}}", "{{>t1}}",
+                         "{{#if b}}{{a}}{{/if}}"]:
+                probes.append(self.case([("t0", "<{{b}}>"), ("t1", "[{{a}}]")],
+                                        {"a": v, "b": "B", "xs": ["i"], "ys": [v, "k"]},
+                                        [("render", tmpl, False)], "pass-order probe"))
+        for tmpl in ["{{#if a}}{{#each xs}}{{/if}}x{{/each}}", "{{#each xs}}{{#if a}}{{/each}}y{{/if}}",
+                     "{{#each xs}}{{#if a}}[{{item}}]{{/if}}{{/each}}", "{{#if a}}{{#each xs}}[{{item}}]{{/each}}{{/if}}",
+                     "{{#if a}}{{>t0}}{{#else}}{{#each xs}}{{>t0}}{{/each}}{{/if}}"]:
+            for a in (0, 1):
+                probes.append(self.case([("t0", "<{{b}}>")], {"a": a, "b": "B", "xs": ["i", "j"]},
+                                        [("render", tmpl, False)], "interleaved / nested blocks (correspondence only)"))
+        return [{"name": "every single construct x binding state x strictness", "cases": cases},
+                {"name": "pass-order probes", "cases": probes}]
 
     # --- implementation -----------------------------------------------------------------------------------
     def _env_line(self, strings):
